@@ -82,7 +82,7 @@ pub fn corr() -> impl Strategy<Value = Corr> {
         2 => (1u8..4, any::<u16>(), any::<u16>()).prop_map(|(section, a, b)| Corr::SwapRecs { section, a, b }),
         2 => (1u8..4, any::<u16>(), any::<u16>()).prop_map(|(section, from, to)| Corr::DupRec { section, from, to }),
         3 => vec((any::<u16>(), 0u8..8), 1..8).prop_map(Corr::BitFlips),
-        2 => (any::<u16>(), 0u8..4).prop_map(|(which, kind)| Corr::StringPrefix { which, kind }),
+        3 => (any::<u16>(), 0u8..8).prop_map(|(which, kind)| Corr::StringPrefix { which, kind }),
         2 => (any::<u16>(), any::<u8>()).prop_map(|(which, at)| Corr::StringUtf8 { which, at }),
         1 => any::<u64>().prop_map(Corr::RandomTail),
         1 => any::<u16>().prop_map(Corr::ZeroFrom),
@@ -184,7 +184,19 @@ pub fn apply(buf: &mut [u8], h: &layout::Header, c: &Corr) -> &'static str {
                 return "noop";
             }
             let at = s_at + starts[idx(*which, starts.len())] as usize;
-            match kind % 4 {
+            let put = |buf: &mut [u8], bytes: &[u8]| {
+                for (k, b) in bytes.iter().enumerate() {
+                    if at + k < end {
+                        buf[at + k] = *b;
+                    }
+                }
+            };
+            match kind % 8 {
+                // lengths at the edge of 32 / 64 bits: u64::MAX, 2^63, u32::MAX, 2^32, usize-overflowing sums
+                4 => put(buf, &[0xff, 0xff, 0xff, 0xff, 0xff, 0xff, 0xff, 0xff, 0xff, 0x01]),
+                5 => put(buf, &[0x80, 0x80, 0x80, 0x80, 0x80, 0x80, 0x80, 0x80, 0x80, 0x01]),
+                6 => put(buf, &[0xff, 0xff, 0xff, 0xff, 0x0f]),
+                7 => put(buf, &[0x80, 0x80, 0x80, 0x80, 0x10]),
                 0 => buf[at] = 0,
                 1 => {
                     for k in at..(at + 12).min(end) {
@@ -518,7 +530,7 @@ pub fn check_hex(hexbuf: &str, case: &MapCase) -> Check {
 
 pub fn run(ctx: &Ctx) -> Report {
     let mut rep = Report::new(ID, "exploration", ctx);
-    rep.rule = "Cases: valid caches written from generated mappings x 1..3 corruption operators: set any 32-bit field of any class / member / by-params record or of the header to {0,1,2,count-1,count,count+1 (for each of the four header counts),2^31,2^32-2,2^32-1,small,old+-1}; swap / duplicate records; 1..7 random bit flips; corrupt a string's LEB128 prefix (0, unterminated, huge, +1) or its UTF-8; random bytes behind a valid header; zeroed string tail. Thorough adds, for files < 600 bytes, every (field, value) edit. Queries: the uncorrupted file's names plus unknowns; lines {0,1,2, all range boundaries +-1, 2^31, 2^32-2..2^32, 2^64-2, 2^64-1}; params; throwables; text and typed traces; signatures. Oracle: parse returns without panic; on Ok every query returns without panic (overflow checks on) and every returned &str is empty or lies inside the buffer's address range or inside one of the query's strings. ProguardCache::test()/display()/debug_* are excluded (assertion / pretty-printing helpers). evaluations = queries issued on accepted corrupted buffers. Non-trivial = distinct corrupted buffers that parse and for which >=1 class lookup succeeds.".into();
+    rep.rule = "Cases: valid caches written from generated mappings x 1..3 corruption operators: set any 32-bit field of any class / member / by-params record or of the header to {0,1,2,count-1,count,count+1 (for each of the four header counts),2^31,2^32-2,2^32-1,small,old+-1}; swap / duplicate records; 1..7 random bit flips; corrupt a string's LEB128 prefix (0, unterminated, huge, +1, u64::MAX, 2^63, u32::MAX, 2^32) or its UTF-8; random bytes behind a valid header; zeroed string tail. Thorough adds, for files < 600 bytes, every (field, value) edit. Queries: the uncorrupted file's names plus unknowns; lines {0,1,2, all range boundaries +-1, 2^31, 2^32-2..2^32, 2^64-2, 2^64-1}; params; throwables; text and typed traces; signatures. Oracle: parse returns without panic; on Ok every query returns without panic (overflow checks on) and every returned &str is empty or lies inside the buffer's address range or inside one of the query's strings. ProguardCache::test()/display()/debug_* are excluded (assertion / pretty-printing helpers). evaluations = queries issued on accepted corrupted buffers. Non-trivial = distinct corrupted buffers that parse and for which >=1 class lookup succeeds.".into();
     rep.assumptions = vec!["buffers are 8-byte aligned".into(), "harness built with overflow-checks=on so arithmetic overflow is observable as a panic".into()];
     rep.run_stage("corrupt", corrupt_case, ctx.cases(150_000, 9_000_000), check_case);
     rep.run_stage("tall", tall_corrupt_case, ctx.cases(300, 12_000), check_case);
